@@ -718,6 +718,18 @@ def adjust(pid, rng, pcfg, pairs=None):
                 if rng.random() < 0.6:
                     k1, k2 = rng.randint(0, len(s1)), rng.randint(0, len(s2))
                     pairs[i] = ((n1, s1[:k1].lower() + s1[k1:], q1), (n2, s2[:k2].lower() + s2[k2:], q2))
+    if pid == "C10" and not b.fasta and rng.random() < 0.12:
+        # quality base 64 with -q and no -Q: the shared quality step of R2 decodes with the same base as that of R1
+        b.qbase = 64
+        b.qcut = rng.choice(["10", "20", "15,10", "5,0"])
+        pcfg.qcut2 = None
+        b.revcomp, b.poly_a, b.demux, b.casava, b.max_n = False, False, False, False, None
+        b.discard_trimmed = b.discard_untrimmed = b.untrimmed_output = False
+        pcfg.min_len = pcfg.max_len = None
+        b.too_short_output = b.too_long_output = False
+        pcfg.pair_adapters = pcfg.combinatorial = False
+        if "{name}" in b.prefix or "{name}" in b.suffix:
+            b.prefix = b.suffix = ""
     if pid == "C15" and b.adapters and not b.discard_trimmed and not pcfg.combinatorial:
         b.demux = True
         b.demux_twice = rng.random() < 0.3
